@@ -25,6 +25,7 @@ VARIANT_NAMES = ["VariantA", "VariantB", "VariantC"]
 
 
 NESTED_WORD = re.compile(r"\.parsed\.Ok\.0\[\d+\]\.Meta\.0\.List\.0\.tokens\.parsed\.Ok\.0\[\d+\]\.Meta\.0\.path\.segments\[0\]\.ident$")
+TOP_ITEM = re.compile(r"\.attrs\[\d+\]\.meta\.List\.0\.tokens\.parsed\.Ok\.0\[\d+\]\.Meta\.0\.path\.segments\[0\]\.ident$")
 WORDS = ["any", "struct_named", "struct_any", "struct_newtype", "enum_unit", "enum_tuple", "struct_struct_named", "enum_enum_any", "struct_bogus", "enum_", "bogus", "doc"]
 
 
@@ -34,7 +35,8 @@ class Focus:
     each variant (ranges); items: items per attribute; names: restrict attribute paths to `darling` (True) or leave them symbolic"""
 
     def __init__(self, tag, body=("Struct",), style=("Named",), nf=(0, 1), nv=(0, 1), cattrs=(0, 0), fattrs=(0, 0), vattrs=(0, 0), items=(0, 1), only_darling=True,
-                 field_names=None, generics=(0, 0), simple=False):
+                 field_names=None, generics=(0, 0), simple=False, item_names=None):
+        self.item_names = item_names      # restrict the names of first-level attribute items to this list (None: unbounded strings)
         self.simple = simple      # option values restricted to string / bool / int literals and paths (used when several items are symbolic)
         self.tag = tag
         self.body = body
@@ -81,6 +83,13 @@ class Pol(syn_models.SynPolicy):
             return s
         if name.startswith("pq("):
             return syn_models.SynPolicy.ident_str(self, I, st, name)
+        if self.f.item_names and TOP_ITEM.search(name):
+            from mirsym.core import NeedFork
+            key = name + "#word"
+            if key in st.decisions:
+                return self.f.item_names[st.decisions[key]]
+            I.domains.setdefault(key, list(range(len(self.f.item_names))))
+            raise NeedFork(key, list(range(len(self.f.item_names))), None)
         if NESTED_WORD.search(name):
             # words inside a nested list (`supports(..)`, `attributes(..)`, `forward_attrs(..)`): a finite alphabet of valid and
             # invalid shape words (they are sliced and compared piecewise by the code, which is hopeless on unconstrained strings)
@@ -198,7 +207,8 @@ def outcome(I, l):
 class Src:
     """source text of the symbolic DeriveInput of leaf l"""
 
-    def __init__(self, prog, l, model_fn=None, darling=False):
+    def __init__(self, prog, l, model_fn=None, darling=False, item_names=None):
+        self.item_names = item_names
         self.darling = darling        # attribute paths were fixed to `darling` by the policy
         self.l = l
         self.prog = prog
@@ -221,6 +231,8 @@ class Src:
     def name_of(self, var, dflt):
         wk = var[:-len(".sym")] + "#word" if var.endswith(".sym") else None
         if wk and wk in self.l.decisions:
+            if self.item_names and TOP_ITEM.search(var[:-len(".sym")]):
+                return self.item_names[self.l.decisions[wk]]
             return WORDS[self.l.decisions[wk]]
         f = (self.l.extra.get("sfacts") or {}).get(var)
         if f and f != "complex" and f[0] == "eq":
